@@ -51,6 +51,19 @@ def gen_cases(ctx, langs, n):
             extra = rand_source(rng, sy, 4)
             cases.append({"mode": "count", "sy": sy, "text": base, "tag": "append-base", "pair": len(cases) + 1})
             cases.append({"mode": "count", "sy": sy, "text": base + extra, "tag": "append-ext", "extra": extra})
+    # the ignore-file window: the directive on every line 1..14 of a 14-line file, through all entry points
+    # (count, count_reader, count_from_bytes must agree line for line on where the window ends)
+    withsl = [l for l in langs if l.single]
+    for sy in rng.sample(withsl, min(len(withsl), 3 if ctx.tier == "quick" else 12)) + [adversarial_syntax(rng)]:
+        if not sy.single or not sy.single[0]:
+            continue
+        for pos in range(1, 15):
+            fill = [rng.choice(["x = 1", "", "y", sy.single[0] + " note", "  "]) for _ in range(14)]
+            fill[pos - 1] = sy.single[0] + " sloc-guard:ignore-file"
+            eol = rng.choice(["\n", "\n", "\r\n"])
+            text = eol.join(fill) + rng.choice(["", eol])
+            cases.append({"mode": "count", "sy": sy, "text": text, "tag": "directive-window"})
+            cases.append({"mode": "bytes", "sy": sy, "bytes": text.encode("utf-8"), "tag": "directive-window"})
     # a few very long lines
     big = 200_000 if ctx.tier == "quick" else 1_000_000
     for sy in (langs[0], adversarial_syntax(rng)):
@@ -60,8 +73,8 @@ def gen_cases(ctx, langs, n):
 
 def wire(c):
     if c["mode"] == "bytes":
-        return "bytes\t%s\t%s" % (c["sy"].wire(), c["bytes"].hex() or "-")
-    return "count\t%s\t%s" % (c["sy"].wire(), enc(c["text"]))
+        return "bytes\t%s\t%s" % (c["sy"].wire_impl(), c["bytes"].hex() or "-")
+    return "count\t%s\t%s" % (c["sy"].wire_impl(), enc(c["text"]))
 
 
 def run(ctx):
